@@ -239,6 +239,9 @@ def run(ctx):
             want = {"term": {"Mul", "Div"}, "expr": {"Add", "Sub"}}[outer]
             inloop = set().union(*[c for c in g.sccs() if len(c) > 1]) if g.sccs() else set()
             seen_ops, bad = set(), []
+            def is_acc(o):   # the accumulator itself, or a temporary copy of it (shallow view: named locals are roots)
+                sy = g.sym_operand(o)
+                return sy[0] == "local" and sy[1] in vlocals
             for b, i, s_ in g.stmts():
                 if s_["k"] != "assign" or s_["rv"]["k"] != "bin" or s_["rv"].get("op") not in ("Add", "Sub", "Mul", "Div"):
                     continue
@@ -248,7 +251,13 @@ def run(ctx):
                 from_inner = lambda x: sym_contains(x, lambda n: n[0] == "call" and n[1] == P + inner)
                 if not (from_inner(da) or from_inner(db)):
                     continue   # arithmetic on something that is not an operand value (none on the confirmed tree)
-                acc = not s_["p"]["pr"] and s_["p"]["l"] in vlocals and "cp" in a_ and not a_["cp"]["pr"] and a_["cp"]["l"] == s_["p"]["l"]
+                if s_["rv"]["op"] in ("Add", "Mul") and not is_acc(a_) and is_acc(b_):
+                    a_, b_, da, db = b_, a_, db, da   # commutative: `rhs * v` is `v * rhs`
+                dl = s_["p"]["l"]
+                lands = dl in vlocals or any(s2["k"] == "assign" and not s2["p"]["pr"] and s2["p"]["l"] in vlocals and s2["rv"]["k"] == "use"
+                                             and any(k in s2["rv"]["o"] and s2["rv"]["o"][k]["l"] == dl and not s2["rv"]["o"][k]["pr"] for k in ("cp", "mv"))
+                                             for _b2, _i2, s2 in g.stmts())   # `let q = v / rhs; v = q;`
+                acc = not s_["p"]["pr"] and lands and is_acc(a_)
                 straight = from_inner(db) and not sym_contains(db, lambda n: n[0] in ("bin", "un"))
                 if acc and straight and b in inloop and s_["rv"]["op"] in want:
                     seen_ops.add(s_["rv"]["op"])
